@@ -82,7 +82,11 @@ func c10ProbeNames() {
 			if g, ok := PickField(it, []string{"value", "val"}, KindIs(reflect.Int)); ok {
 				m["item"]["value"] = g.Name
 			}
-			m[it.Name()] = m["item"]
+			itn := it.Name()
+			if i := strings.IndexByte(itn, '['); i >= 0 {
+				itn = itn[:i]
+			}
+			m[itn] = m["item"]
 		}
 	}()
 	c10Lay.m = m
